@@ -272,6 +272,19 @@ theorem condense_never_next_to_dotdot (opt : Bool) (items : List TItem) (h : has
     condense opt items = items.map TItem.text := by
   simp [condense, condenseFires, h]
 
+/-- printing is stable: a condensed pattern has its `..` and is left alone -/
+theorem condense_stable (opt : Bool) (items : List TItem) (h : condenseFires opt items = true)
+    (again : List TItem) (ha : again.map TItem.text = condense opt items) :
+    condense opt again = condense opt items := by
+  have hd : hasDotdot again = true := by
+    have hshape := (condense_shape opt items h).1
+    rw [hshape] at ha
+    have : restText ∈ again.map TItem.text := by rw [ha]; simp
+    obtain ⟨i, hi, hit⟩ := List.mem_map.mp this
+    simp only [hasDotdot, List.any_eq_true]
+    exact ⟨i, hi, by simp [hit]⟩
+  rw [condense_never_next_to_dotdot opt again hd, ha]
+
 /-- **The pinned tree wrote a second `..`**: `(a, .., _, _)` became `(a, .., ..)`, which fits no tuple at all. -/
 theorem condense_pinned_counterexample :
     let items : List TItem := [⟨cs% "a", false⟩, ⟨cs% "..", false⟩, ⟨cs% "_", false⟩, ⟨cs% "_", false⟩]
@@ -323,6 +336,38 @@ theorem paren_norm_off (e : PExpr) : e.norm false = e := by
   | case3 a pre post a' pre' post' inner hc ih => simp at hc
   | case4 a pre post a' pre' post' inner hc ih =>
     rw [PExpr.norm]; simp [ih]
+
+/-- printing is stable: what `rewrite_paren` printed it prints again -/
+theorem paren_norm_idem (opt : Bool) (e : PExpr) : (e.norm opt).norm opt = e.norm opt := by
+  induction e using PExpr.norm.induct opt with
+  | case1 t => simp [PExpr.norm]
+  | case2 a pre post t => simp [PExpr.norm]
+  | case3 a pre post a' pre' post' inner hc ih =>
+    have : (PExpr.paren a pre post (.paren a' pre' post' inner)).norm opt = (PExpr.paren a pre' post' inner).norm opt := by
+      rw [PExpr.norm]; simp only [hc, if_true]
+    rw [this, ih]
+  | case4 a pre post a' pre' post' inner hc ih =>
+    have hn : (PExpr.paren a pre post (.paren a' pre' post' inner)).norm opt =
+        .paren a pre post ((PExpr.paren a' pre' post' inner).norm opt) := by
+      rw [PExpr.norm]; simp only [hc]; simp
+    rw [hn]
+    -- the inner result is a parenthesis that keeps what blocked the step
+    generalize hq : (PExpr.paren a' pre' post' inner).norm opt = q at ih ⊢
+    have hkeep : ∃ p2 q2 inner2, q = .paren a' p2 q2 inner2 := by
+      rw [← hq]
+      clear ih hn hq hc
+      induction inner generalizing pre' post' with
+      | atom t => exact ⟨pre', post', .atom t, by simp [PExpr.norm]⟩
+      | paren a2 p2 q2 i2 ihi =>
+        rw [PExpr.norm]
+        split
+        · exact ihi p2 q2
+        · exact ⟨pre', post', _, rfl⟩
+    obtain ⟨p2, q2, inner2, hq2⟩ := hkeep
+    subst hq2
+    rw [PExpr.norm]
+    simp only [hc]
+    simp [ih]
 
 /-- **It fires exactly when**: a pair directly inside another goes iff the option is on, no comment stands between the
 two and the inner pair has no attributes (one step of the loop). -/
@@ -583,6 +628,80 @@ theorem merge_derives_exact (merge skip normDoc : Bool) (p q : List Str) (k : Na
   · have hk' : k ≥ 2 := by omega
     cases merge <;> cases skip <;> cases sl <;>
       simp [rewriteAttrs, rewriteAttrsGo, takeRun, Attr.isDocComment, Attr.isDerive, collectPaths, hk, hk']
+
+/-- **A run goes on across a gap exactly when** both neighbours fill the predicate and the gap between them has fewer
+than two line feeds and no `/`. -/
+theorem take_run_exact (pred : Attr → Bool) (a b : AttrIn) (r : List AttrIn) :
+    takeRun pred (a :: b :: r) ≥ 2 ↔
+      (pred a.attr = true ∧ pred b.attr = true ∧ a.gapNewlines < 2 ∧ a.gapSlash = false) := by
+  have hb : takeRun pred (b :: r) ≥ 1 ↔ pred b.attr = true := by
+    constructor
+    · intro h
+      by_cases hp : pred b.attr = true
+      · exact hp
+      · simp [takeRun, hp] at h
+    · exact takeRun_pos pred b r
+  by_cases hpa : pred a.attr = true
+  · by_cases hk : a.gapNewlines ≥ 2
+    · simp [takeRun, hpa, hk]; omega
+    · cases hs : a.gapSlash
+      · have : takeRun pred (a :: b :: r) = 1 + takeRun pred (b :: r) := by
+          simp [takeRun, hpa, hk, hs]
+        rw [this]
+        constructor
+        · intro h; exact ⟨hpa, hb.mp (by omega), by omega, rfl⟩
+        · rintro ⟨_, h2, _, _⟩; have := hb.mpr h2; omega
+      · simp [takeRun, hpa, hs]
+  · simp [takeRun, hpa]
+
+/-- the rewrite fails only through a derive whose list does not parse: with every derive parseable it succeeds -/
+theorem collectPaths_some (xs : List AttrIn) (hd : ∀ a ∈ xs, a.attr.isDerive = true)
+    (hp : ∀ a ∈ xs, a.attr ≠ .derive none) : ∃ ps, collectPaths xs = some ps := by
+  induction xs with
+  | nil => exact ⟨[], rfl⟩
+  | cons a r ih =>
+    obtain ⟨q, hq⟩ := ih (fun x hx => hd x (by simp [hx])) (fun x hx => hp x (by simp [hx]))
+    have h1 := hd a (by simp)
+    have h2 := hp a (by simp)
+    cases hattr : a.attr with
+    | derive o =>
+      cases o with
+      | none => exact absurd hattr h2
+      | some p => exact ⟨p ++ q, by simp [collectPaths, hattr, hq]⟩
+    | docComment t => simp [hattr, Attr.isDerive] at h1
+    | docAttr i v => simp [hattr, Attr.isDerive] at h1
+    | other t => simp [hattr, Attr.isDerive] at h1
+
+theorem rewriteAttrsGo_total (merge skip normDoc : Bool) :
+    ∀ (fuel : Nat) (attrs : List AttrIn), (∀ a ∈ attrs, a.attr ≠ .derive none) →
+      ∃ out, rewriteAttrsGo merge skip normDoc fuel attrs = some out := by
+  intro fuel
+  induction fuel with
+  | zero => intro attrs _; exact ⟨[], by simp [rewriteAttrsGo]⟩
+  | succ fuel ih =>
+    intro attrs hp
+    cases attrs with
+    | nil => exact ⟨[], by simp [rewriteAttrsGo]⟩
+    | cons a rest =>
+      simp only [rewriteAttrsGo]
+      have hsub : ∀ n, ∀ x ∈ (a :: rest).drop n, x.attr ≠ .derive none :=
+        fun n x hx => hp x (List.mem_of_mem_drop hx)
+      split
+      · obtain ⟨r, hr⟩ := ih _ (hsub _)
+        exact ⟨_, by rw [hr]; rfl⟩
+      · split
+        · have hrun := takeRun_pred Attr.isDerive (a :: rest)
+          obtain ⟨ps, hps⟩ := collectPaths_some _ hrun (fun x hx => hp x (List.mem_of_mem_take hx))
+          obtain ⟨r, hr⟩ := ih _ (hsub _)
+          exact ⟨_, by rw [hps]; simp only; rw [hr]; rfl⟩
+        · obtain ⟨r, hr⟩ := ih rest (fun x hx => hp x (by simp [hx]))
+          exact ⟨_, by rw [hr]; rfl⟩
+
+/-- **The edge branch is the only way to fail**: an attribute list in which every `derive` has a list is always
+rewritten (and then `merge_derives_sound` applies). -/
+theorem rewriteAttrs_total (merge skip normDoc : Bool) (attrs : List AttrIn)
+    (hp : ∀ a ∈ attrs, a.attr ≠ .derive none) : ∃ out, rewriteAttrs merge skip normDoc attrs = some out :=
+  rewriteAttrsGo_total merge skip normDoc attrs.length attrs hp
 
 /-- what stops a run: any other attribute (`#[cfg_attr(x, derive(E))]` is one) -/
 example : rewriteAttrs true false false
